@@ -26,7 +26,8 @@ RULE = ('Producer: key d and 32-byte digests from boundary-biased classes (0.., 
         'asked 2..5 questions with other digests / keys / the stored key - every answer is the ECDSA verdict of '
         'that call. Non-trivial = producer case with a boundary-class key or digest, an explicit '
         'nonce or a non-default hash type; every verifier case that is not the plain valid triple; distinct by all '
-        'case fields. [producer cases with a crafted raw s: digest solved from key, nonce and an s on the low-S boundary n//2 .. 2^255]')
+        'case fields. [producer cases with a crafted raw s: digest solved from key, nonce and an s on the low-S boundary n//2 .. 2^255]'
+        ' [crafted_sizes: every combination of DER integer lengths; the message as bytes, hex and upper-case hex gives one signature]')
 ASSUMPTIONS = ['ref/ec.py implements secp256k1 ECDSA verification and BIP66 correctly (self-tested in ref/selftest.py)',
                '"standard ECDSA" = textbook verification on the 32-byte digest read as a big-endian integer, public '
                'key = SEC1 compressed/uncompressed encoding of a curve point with coordinates < p (hybrid 06/07 keys '
@@ -72,7 +73,8 @@ def _sign_once(keys, case, d, zb, kform):
         kw['k'] = int(case['k'], 16)
     if case.get('ht', 1) != 1 or case.get('ht_explicit'):
         kw['hash_type'] = case['ht']
-    zarg = zb if case.get('zform', 'bytes') == 'bytes' else zb.hex()
+    zform = case.get('zform', 'bytes')
+    zarg = zb if zform == 'bytes' else zb.hex().upper() if zform == 'hex_upper' else zb.hex()
     return keys.sign(zarg, _key_arg(keys, d, kform), **kw)
 
 
@@ -134,7 +136,9 @@ def _check_one_signature(ctx, keys, case, d, zb, q, first):
     # determinism: a second call on fresh objects
     try:
         # (other key form and other message form: the signature is a function of key and message only)
-        other = dict(case, zform='hex' if case.get('zform', 'bytes') == 'bytes' else 'bytes')
+        # (hexadecimal text in either letter case is the same message)
+        other = dict(case, zform={'bytes': 'hex_upper' if d & 1 else 'hex', 'hex': 'hex_upper' if d & 1 else 'bytes',
+                                  'hex_upper': 'hex' if d & 1 else 'bytes'}[case.get('zform', 'bytes')])
         sig2 = _sign_once(keys, other, d, zb, 'Key' if kform != 'Key' else 'hex')
         der2 = bytes(sig2.as_der_encoded())
     except Exception as e:
